@@ -409,6 +409,9 @@ func classifyCrash(prop, msg, scratch, replayDir string) (foundViolation, bool) 
 	if !strings.Contains(msg, "panic:") && !strings.Contains(msg, "fatal error:") {
 		return fv, false
 	}
+	if strings.Contains(msg, "synctest channel from outside bubble") || strings.Contains(msg, "from outside bubble") {
+		return fv, false // a goroutine of the harness escaped its bubble: harness trouble
+	}
 	if !strings.Contains(msg, "github.com/pascaldekloe/mqtt.") && !strings.Contains(msg, "github.com/pascaldekloe/mqtt/mqtttest.") {
 		return fv, false
 	}
